@@ -52,6 +52,15 @@ static void once(void)
   fill(pv->V, 32); fill(pv->C, 32); pv->reseed_counter = AD; pv->reseed_limit = KL; pv->callback = ct_cb; pv->user_data = 0;
   uint8_t o[ML + 1];
   tinyjambu_prng_generate((tinyjambu_prng_state_t *)&po, o, ML);
+#elif WHAT == 7        /* HKDF extract + two expand calls: key material, salt and info contents secret; all lengths public */
+  uint8_t key[KL + 1], salt[AD + 1], info[4], o[ML + 1]; fill(key, KL); fill(salt, AD); fill(info, 4);
+  { struct { unsigned char prk[32], out[32], counter, posn, tail[6]; } ho;      /* field-sensitive 72-byte state object */
+    tinyjambu_hkdf_extract((tinyjambu_hkdf_state_t *)&ho, key, KL, salt, AD);
+    (void)tinyjambu_hkdf_expand((tinyjambu_hkdf_state_t *)&ho, info, 4, o, ML / 2);
+    (void)tinyjambu_hkdf_expand((tinyjambu_hkdf_state_t *)&ho, info, 4, o + ML / 2, ML - ML / 2); }
+#elif WHAT == 8        /* PBKDF2: password and salt contents secret; lengths, count and outlen public */
+  uint8_t pw[KL + 1], salt[AD + 1], o[ML + 1]; fill(pw, KL); fill(salt, AD);
+  tinyjambu_pbkdf2(o, ML, pw, KL, salt, AD, 2);
 #elif WHAT == 5        /* permutation: state and key secret, round count public */
   CAT(tinyjambu_, NNN, _state_t) s; for (int i = 0; i < 4; i++) s.s[i] = nondet_u32(); for (int i = 0; i < NNN / 32; i++) s.k[i] = nondet_u32();
   CAT(tinyjambu_permutation_, NNN, )(&s, ML);
